@@ -258,6 +258,191 @@ example :
     let r : Registry := { live := [(1, i)], next := intMax, rsRef := 1 }
     (r.create (fun _ => true) 6 2 1 0 1 1).2 = 2 := by decide
 
+/-! ### Termination of `alloc_desc` (the `fuel` of the model is not observable)
+
+  The C loop has no bound; the model's `fuel` has.  After the first step the counter lies in
+  [1, INT_MAX] and `bumpDesc` is the cyclic successor there, so `live.length + 1` successive
+  candidates are pairwise distinct as long as `live.length + 1 ≤ INT_MAX`; they cannot all be
+  live (pigeonhole), so the loop returns within `live.length + 1` iterations and the
+  fuel-exhaustion answer `none` / `-1` of the model is unreachable. -/
+
+/-- `bumpIter i x` = the counter after `i` steps from `x`. -/
+def bumpIter : Nat → Int → Int
+  | 0, x => x
+  | i + 1, x => bumpIter i (bumpDesc x)
+
+/-- pigeonhole: `n` pairwise distinct values all lying in `live` force `n ≤ live.length`. -/
+theorem pigeonhole : ∀ (n : Nat) (live : List Int) (f : Nat → Int),
+    (∀ i j, i < j → j < n → f i ≠ f j) → (∀ i, i < n → f i ∈ live) → n ≤ live.length
+  | 0, _, _, _, _ => Nat.zero_le _
+  | n + 1, live, f, hinj, hmem => by
+    have ha : f n ∈ live := hmem n (Nat.lt_succ_self n)
+    have ih := pigeonhole n (live.erase (f n)) f (fun i j hij hj => hinj i j hij (by omega))
+      (fun i hi => (List.mem_erase_of_ne (hinj i n hi (by omega))).mpr (hmem i (by omega)))
+    rw [List.length_erase_of_mem ha] at ih
+    have := List.length_pos_of_mem ha
+    omega
+
+/-- the candidates the loop inspects are `bumpIter 1 next, bumpIter 2 next, …`; if the fuel
+    runs out, every one of them was live. -/
+theorem allocDesc_none (live : List Int) : ∀ (fuel : Nat) (next : Int),
+    allocDesc live fuel next = none → ∀ i, i < fuel → bumpIter (i + 1) next ∈ live := by
+  intro fuel
+  induction fuel with
+  | zero => intro _ _ i hi; omega
+  | succ f ih =>
+    intro next h i hi
+    unfold allocDesc at h
+    dsimp only at h
+    split at h
+    · rename_i hc
+      cases i with
+      | zero => simpa [bumpIter] using hc
+      | succ i' =>
+        have := ih (bumpDesc next) h i' (by omega)
+        exact this
+    · cases h
+
+theorem bumpDesc_eq (x : Int) :
+    bumpDesc x = if x = 2147483647 then 1 else if x + 1 ≤ 0 then 1 else x + 1 := by
+  unfold bumpDesc intMax; dsimp only
+  split <;> split <;> first | rfl | omega
+
+/-- inside [1, INT_MAX] the counter is the cyclic successor. -/
+theorem iterate_bump_cyclic : ∀ (i : Nat) (x : Int), 1 ≤ x → x ≤ 2147483647 →
+    bumpIter i x = (x - 1 + i) % 2147483647 + 1 := by
+  intro i
+  induction i with
+  | zero => intro x h1 h2; simp only [bumpIter]; omega
+  | succ i ih =>
+    intro x h1 h2
+    have hb := bumpDesc_eq x
+    have hstep : bumpIter (i + 1) x = bumpIter i (bumpDesc x) := rfl
+    rw [hstep]
+    split at hb
+    · rw [hb, ih 1 (by omega) (by omega)]; push_cast; omega
+    · split at hb
+      · omega
+      · rw [hb, ih (x + 1) (by omega) (by omega)]; push_cast; omega
+
+/-- above INT_MAX (not a C int; the model's `Int` allows it) the counter just counts up. -/
+theorem iterate_bump_above : ∀ (i : Nat) (x : Int), 2147483647 < x →
+    bumpIter i x = x + i := by
+  intro i
+  induction i with
+  | zero => intro x _; simp [bumpIter]
+  | succ i ih =>
+    intro x hx
+    have hb := bumpDesc_eq x
+    have hstep : bumpIter (i + 1) x = bumpIter i (bumpDesc x) := rfl
+    rw [hstep]
+    split at hb
+    · omega
+    · split at hb
+      · omega
+      · rw [hb, ih (x + 1) (by omega)]; push_cast; omega
+
+/-- up to INT_MAX successive candidates are pairwise distinct, from any counter value. -/
+theorem candidates_distinct (next : Int) (i j : Nat) (hij : i < j) (hj : j < 2147483647) :
+    bumpIter (i + 1) next ≠ bumpIter (j + 1) next := by
+  have hi' : bumpIter (i + 1) next = bumpIter i (bumpDesc next) := rfl
+  have hj' : bumpIter (j + 1) next = bumpIter j (bumpDesc next) := rfl
+  rw [hi', hj']
+  have hpos := bumpDesc_pos next
+  by_cases hle : bumpDesc next ≤ 2147483647
+  · rw [iterate_bump_cyclic i _ (by omega) hle, iterate_bump_cyclic j _ (by omega) hle]; omega
+  · rw [iterate_bump_above i _ (by omega), iterate_bump_above j _ (by omega)]; omega
+
+/-- **termination**: with at least `live.length + 1` iterations allowed, and fewer than INT_MAX
+    live descriptors, `alloc_desc` returns — for every counter value. -/
+theorem allocDesc_total (live : List Int) (fuel : Nat) (next : Int)
+    (hf : live.length + 1 ≤ fuel) (hlen : live.length + 1 ≤ 2147483647) :
+    (allocDesc live fuel next).isSome := by
+  cases h : allocDesc live fuel next with
+  | some p => rfl
+  | none =>
+    exfalso
+    have hall := allocDesc_none live fuel next h
+    have := pigeonhole (live.length + 1) live (fun i => bumpIter (i + 1) next)
+      (fun i j hij hj => candidates_distinct next i j hij (by omega))
+      (fun i hi => hall i (by omega))
+    omega
+
+/-- the form used by `Registry.create`. -/
+theorem allocDesc_total_create (live : List Int) (next : Int) (hlen : live.length + 1 < 2147483647) :
+    (allocDesc live (live.length + 2) next).isSome :=
+  allocDesc_total live _ next (by omega) (by omega)
+
+/-- more fuel never changes an answer already given. -/
+theorem allocDesc_mono (live : List Int) : ∀ (fuel fuel' : Nat) (next : Int) (p : Int × Int),
+    fuel ≤ fuel' → allocDesc live fuel next = some p → allocDesc live fuel' next = some p := by
+  intro fuel
+  induction fuel with
+  | zero => intro _ _ _ _ h; simp [allocDesc] at h
+  | succ f ih =>
+    intro fuel' next p hle h
+    cases fuel' with
+    | zero => omega
+    | succ f' =>
+      unfold allocDesc at h ⊢
+      dsimp only at h ⊢
+      split
+      · rename_i hc
+        rw [if_pos hc] at h
+        exact ih f' _ p (by omega) h
+      · rename_i hc
+        rw [if_neg hc] at h
+        exact h
+
+/-- **the fuel is not observable**: every fuel of at least `live.length + 1` gives the answer the
+    model's `live.length + 2` gives (hence any two such fuels agree). -/
+theorem allocDesc_fuel_irrelevant (live : List Int) (fuel : Nat) (next : Int)
+    (hf : live.length + 1 ≤ fuel) (hlen : live.length + 1 ≤ 2147483647) :
+    allocDesc live fuel next = allocDesc live (live.length + 2) next := by
+  have ht := allocDesc_total live (live.length + 1) next (Nat.le_refl _) hlen
+  obtain ⟨p, hp⟩ := Option.isSome_iff_exists.mp ht
+  rw [allocDesc_mono live _ fuel next p hf hp, allocDesc_mono live _ (live.length + 2) next p (by omega) hp]
+
+/-- **create never reports fuel exhaustion**: once the shape / availability checks pass, and fewer
+    than INT_MAX instances are live, create returns a fresh positive descriptor (never the model's
+    `-1`), registers the instance under it and leaves the counter at it. -/
+theorem create_never_exhausts (r : Registry) (avail : Nat → Bool) (id k m w hd : Int) (ct : Nat)
+    (inst : Inst) (hc : Lec.create avail id k m w hd ct = .ok inst)
+    (hlen : r.live.length + 1 < 2147483647) :
+    ∃ d, 0 < d ∧ d ∉ r.live.map (·.1) ∧
+      r.create avail id k m w hd ct =
+        ({ live := (d, inst) :: r.live, next := d,
+           rsRef := if inst.beId == 6 then r.rsRef + 1 else r.rsRef }, d) := by
+  have ht := allocDesc_total_create (r.live.map (·.1)) r.next (by simpa using hlen)
+  obtain ⟨p, hp⟩ := Option.isSome_iff_exists.mp ht
+  obtain ⟨d, nx⟩ := p
+  obtain ⟨h1, h2, rfl⟩ := allocDesc_sound _ _ _ _ _ hp
+  refine ⟨nx, h1, h2, ?_⟩
+  simp only [List.length_map] at hp
+  simp only [Registry.create, hc, hp]
+
+/-- in particular the result code is positive, so not `-1`. -/
+theorem create_never_exhausts_code (r : Registry) (avail : Nat → Bool) (id k m w hd : Int) (ct : Nat)
+    (inst : Inst) (hc : Lec.create avail id k m w hd ct = .ok inst)
+    (hlen : r.live.length + 1 < 2147483647) :
+    0 < (r.create avail id k m w hd ct).2 ∧ (r.create avail id k m w hd ct).2 ≠ -1 := by
+  obtain ⟨d, hd0, _, heq⟩ := create_never_exhausts r avail id k m w hd ct inst hc hlen
+  rw [heq]; exact ⟨hd0, by simp only; omega⟩
+
+/-- non-vacuity: the first three candidates are taken, the fourth is returned. -/
+example : allocDesc [1, 2, 3] ([1, 2, 3].length + 2) 0 = some (4, 4) := by decide
+/-- non-vacuity: wrap-around at INT_MAX, skipping the live descriptor 1. -/
+example : allocDesc [1] ([1].length + 2) 2147483647 = some (2, 2) := by decide
+/-- the bound `live.length + 1` is tight: one iteration fewer can run out. -/
+example : allocDesc [1, 2, 3] [1, 2, 3].length 0 = none := by decide
+/-- non-vacuity of `create_never_exhausts`: its hypotheses hold on a registry whose first
+    candidates are taken, and the descriptor is the first free one. -/
+example :
+    let i : Inst := ⟨6, 0x010000, 2, 1, 16, 1⟩
+    let r : Registry := { live := [(3, i), (2, i), (1, i)], next := 0, rsRef := 3 }
+    (Lec.create (fun _ => true) 6 2 1 0 1 1).toOption = some i ∧ r.live.length + 1 < 2147483647 ∧
+    (r.create (fun _ => true) 6 2 1 0 1 1).2 = 4 := by decide
+
 #print axioms inv_history
 #print axioms create_fresh
 #print axioms create_failed
@@ -265,4 +450,9 @@ example :
 #print axioms isolation_destroy
 #print axioms isolation_create
 #print axioms tables_iff
+#print axioms allocDesc_total
+#print axioms allocDesc_total_create
+#print axioms allocDesc_fuel_irrelevant
+#print axioms create_never_exhausts
+#print axioms create_never_exhausts_code
 end LecProps.C14
